@@ -187,7 +187,16 @@ def check_builders(fx, R, S):
             else:
                 R.undecided('R2', 'eulerAnglesToQuaternion<%s>' % S, 'not the enumerated product of three AngleAxis factors; %s' % verdict[1])
     okr = stmts_sx(fr) in ([('return', ('eulerAnglesToQuaternion', 'eulerAngles'))], [('return', ('new:Eigen::Matrix<%s, 3, 3, 0>' % S, ('eulerAnglesToQuaternion', 'eulerAngles')))])
-    R.form(okr, 'R2', 'eulerAnglesToRotation3D<%s>' % S, 'is %s, expected the matrix of eulerAnglesToQuaternion(angles)' % (stmts_sx(fr),), 'matrix of the quaternion', fx.rel(fr['loc']), 'E-SIB')
+    if okr:
+        R.holds('R2', 'eulerAnglesToRotation3D<%s>' % S, 'matrix of the quaternion', fx.rel(fr['loc']), 'E-SIB')
+    else:
+        verdict = builder_witnesses(fx, fr, matrix_result=True)
+        if verdict[0] == 'violated':
+            R.violated('R2', 'eulerAnglesToRotation3D:value', verdict[1] + ' [%s]' % S, fx.rel(fr['loc']), 'E-ORD')
+        elif verdict[0] == 'proved':
+            R.holds('R2', 'eulerAnglesToRotation3D<%s>' % S, verdict[1].replace('returned quaternion', 'returned matrix'), fx.rel(fr['loc']), 'E-ALG')
+        else:
+            R.undecided('R2', 'eulerAnglesToRotation3D<%s>' % S, 'is %s, not the enumerated matrix of eulerAnglesToQuaternion(angles); %s' % (str(stmts_sx(fr))[:300], verdict[1]))
     okq = stmts_sx(fqe) == [('return', ('rotation3DToEulerAngles', ('.toRotationMatrix', ('.normalized', 'quaternion'))))]
     if okq:
         R.holds('R2', 'quaternionToEulerAngles<%s>' % S, 'extraction of the normalised quaternion\'s matrix', fx.rel(fqe['loc']), 'E-SIB')
@@ -232,6 +241,13 @@ def quat_hook(rd, e, st, ctx):
                 out.append((('quat', c_, s_ if tail == 'UnitX' else 0, s_ if tail == 'UnitY' else 0, s_ if tail == 'UnitZ' else 0), s2))
             return out
         raise sym.Unsupported('AngleAxis about a non-unit-axis expression at %s' % e.get('loc'))
+    if k == 'Construct' and mat.dims_of(e['t']['s']) == (3, 3) and len(e.get('args', [])) == 1 and 'Quaternion' in strip_casts(e['args'][0])['t']['s']:
+        out = []
+        for (v, s2) in rd.ev(e['args'][0], st, ctx):
+            if not _is_quat(v):
+                return ext_hook(rd, e, st, ctx)
+            out.append((sp.ImmutableMatrix(_qmat(v)), s2))       # Matrix3(q): the rotation matrix of the quaternion
+        return out
     if k == 'Construct' and 'Eigen::Quaternion<' in e['t']['s']:
         args = e.get('args', [])
         if len(args) == 1:
@@ -289,7 +305,7 @@ def quat_hook(rd, e, st, ctx):
     return ext_hook(rd, e, st, ctx)
 
 
-def builder_witnesses(fx, f):
+def builder_witnesses(fx, f, matrix_result=False):
     """eulerAnglesToQuaternion read as a quaternion-valued function of symbolic (roll, pitch, yaw); every path is evaluated on the witness angle
     triples that satisfy its conditions and the rotation of the returned quaternion must be Rz(yaw) Ry(pitch) Rx(roll)."""
     import itertools
@@ -298,18 +314,22 @@ def builder_witnesses(fx, f):
         sts = sym.Reader(fx, call_hook=quat_hook, member_hook=mat.member_hook).run(f, args=[sp.ImmutableMatrix([r, p, y])])
     except sym.Unsupported as u:
         return ('undecided', 'not interpretable as a quaternion-valued function: %s' % u)
-    if not sts or not all(_is_quat(st_.ret) for st_ in sts):
-        return ('undecided', 'result not readable as a quaternion')
+    as_matrix = lambda v: _qmat(v) if _is_quat(v) else (sp.Matrix(v) if isinstance(v, sp.MatrixBase) and sp.Matrix(v).shape == (3, 3) else None)
+    if not sts or not all((as_matrix(st_.ret) is not None) if matrix_result else _is_quat(st_.ret) for st_ in sts):
+        return ('undecided', 'result not readable as a %s' % ('rotation matrix' if matrix_result else 'quaternion'))
     Rx, Ry, Rz = rot.canon(r, p, y)
     M = Rz * Ry * Rx
     rolls = (sp.Rational(3, 10), sp.Rational(5, 2), -sp.Integer(2))
     pitches = (sp.Rational(1, 2), -sp.Rational(6, 5), sp.Integer(0))
     yaws = (-sp.Rational(2, 5), sp.Rational(11, 10), sp.Rational(7, 2), -sp.Integer(3))
+    # small rotations (increments) are inside the quantifier like any other angles
+    small = [(sp.Rational(1, 500), -sp.Rational(1, 300), sp.Rational(1, 250)), (sp.Rational(1, 1000), sp.Integer(0), sp.Integer(0)), (sp.Integer(0), sp.Rational(-1, 2000), sp.Rational(1, 4000)),
+             (sp.Rational(1, 10 ** 6), sp.Rational(1, 10 ** 6), -sp.Rational(1, 10 ** 6))]
     n_ok = 0
     for st_ in sts:
         desc = ' && '.join(('' if c[2] else '!') + '(' + c[0] + ')' for c in st_.cond)
-        Q = _qmat(st_.ret)
-        for (rv, pv, yv) in itertools.product(rolls, pitches, yaws):
+        Q = as_matrix(st_.ret)
+        for (rv, pv, yv) in list(itertools.product(rolls, pitches, yaws)) + small:
             env = {r: rv, p: pv, y: yv}
             ok = True
             for c in st_.cond:
@@ -330,13 +350,17 @@ def builder_witnesses(fx, f):
             except (TypeError, ValueError):
                 return ('undecided', 'not evaluable on the witness angles')
             if not err.is_real or err > sp.Float('1e-9'):
+                if not _is_quat(st_.ret):
+                    return ('violated', 'for (roll %s, pitch %s, yaw %s)%s the returned matrix differs from Rz(yaw) Ry(pitch) Rx(roll) by %s in an entry (the shared convention is exact for every angle triple, '
+                            'small ones included; the tolerance of the statement is 1e-9): it is not the rotation SmartRotation3D and the quaternion builder give for these angles, and extracting its Euler angles '
+                            'does not return them' % (rv, pv, yv, ' on the path [%s]' % desc if desc else '', sp.N(err, 3)))
                 q_ = [sp.N(c_.subs(env), 6) for c_ in st_.ret[1:]]
                 return ('violated', 'for (roll %s, pitch %s, yaw %s)%s the returned quaternion (w, x, y, z) = %s rotates as a matrix that differs from Rz(yaw) Ry(pitch) Rx(roll) by %s: the quaternion and the '
                         'angles do not describe the same rotation, and quaternionToEulerAngles does not return these angles%s' % (
                             rv, pv, yv, ' on the path [%s]' % desc if desc else '', [str(c_) for c_ in q_], sp.N(err, 3),
                             ' (negating one coefficient of a quaternion changes the rotation; only negating all four keeps it)' if desc else ''))
             n_ok += 1
-    if len(sts) <= 4 and all(alg.decide_zero(_qmat(st_.ret)[i, j] - M[i, j], domain=_c10_domain)[0] == 'zero' for st_ in sts for i in range(3) for j in range(3)):
+    if len(sts) <= 4 and all(alg.decide_zero(as_matrix(st_.ret)[i, j] - M[i, j], domain=_c10_domain)[0] == 'zero' for st_ in sts for i in range(3) for j in range(3)):
         return ('proved', 'the rotation of the returned quaternion is Rz(yaw) Ry(pitch) Rx(roll) identically on each of the %d path(s)' % len(sts))
     return ('agrees', 'its rotation equals Rz Ry Rx on %d witness angle triples (all paths), which is not a proof' % n_ok)
 
